@@ -151,6 +151,10 @@ def run(run):
         cases += K.standard_cases(d1 + d2 + preds, ["range"], [("np", 3, True), ("np", 5, False)])
         cases += K.standard_cases(d1, ["dupint", "str"], [("np", 4, True)])
     run_cases(run, "vf.props.C01", "check_case", cases, {"rules": True})
+    # tier P: the optimizer's drivers (loops and stage pipeline) and the hand-written layers a rewrite rule targets
+    from vf.contracts.registry import run_property_specs
+
+    run_property_specs(run, "C01")
     run.assume("pandas / numpy semantics; dask.get as reference executor; comparison up to row order / index labels only where the program leaves them undefined (flag per program)")
     run.assume("p2p shuffle / hash join are outside the claim (distributed is not installed)")
     run.trust("vf/rt/corpus.py program catalogue and comparator vf/rt/den.py")
